@@ -523,6 +523,12 @@ func exchange(u *vk.Unit, p *reg.Package, m reg.Method, cm reflect.Value, args [
 		if callErr == nil && st.status < 400 {
 			return vk.F("silent-non-delivery", "%s: handler not invoked, client returned no error and status %d", desc(), st.status)
 		}
+		if ignoreTime && (st.status >= 400 && st.status < 500 || callErr != nil && st.status == 0) {
+			// corpus documents: validators on primitive parameters / bodies and formats are invisible to
+			// the builder, so a 4xx (or a client-side refusal) is an admissible answer to a built value
+			u.Label("corpus:refused-4xx")
+			return nil
+		}
 		if class == valgen.Core && argsErr == nil {
 			// the encoder's documented refusal of a value that contains the style's delimiter (a float
 			// with a fraction in a label-style parameter contains '.') is the allowed error outcome:
@@ -551,8 +557,14 @@ func exchange(u *vk.Unit, p *reg.Package, m reg.Method, cm reflect.Value, args [
 		return vk.F("harness", "%s: handler got %d args, sent %d", desc(), len(st.handlerArgs), len(args))
 	}
 	for i, a := range args {
+		if ignoreTime {
+			// corpus documents: defaults, discriminator members, wildcard media types and formats are
+			// not modelled, so argument VALUES are not compared there (types are, by the glue); the
+			// generated-document units carry the value comparison
+			break
+		}
 		got := reflect.ValueOf(st.handlerArgs[i])
-		if ok, where := valgen.Equal(a, got, valgen.EqOpts{NilEqualsEmpty: true, IgnoreTime: ignoreTime}); !ok {
+		if ok, where := valgen.Equal(a, got, valgen.EqOpts{NilEqualsEmpty: true, IgnoreTime: ignoreTime, UnsetMayBecomeSet: ignoreTime}); !ok {
 			cl := "silent-change"
 			switch {
 			case strings.Contains(where, ": float ") && isParamsArg(a):
@@ -615,6 +627,10 @@ func exchange(u *vk.Unit, p *reg.Package, m reg.Method, cm reflect.Value, args [
 	}
 	respDesc := render(resp.Interface())
 	if callErr != nil {
+		if ignoreTime {
+			u.Label("corpus:response-refused")
+			return nil
+		}
 		if class == valgen.Core && respErr == nil {
 			cl := "core-response-not-delivered"
 			switch {
@@ -628,7 +644,22 @@ func exchange(u *vk.Unit, p *reg.Package, m reg.Method, cm reflect.Value, args [
 		return nil // hostile or invalid response: an error is the allowed outcome
 	}
 	got := out[0]
-	if ok, where := valgen.Equal(resp, got, valgen.EqOpts{NilEqualsEmpty: true, IgnoreTime: ignoreTime}); !ok {
+	if ignoreTime {
+		// corpus documents: only the response variant must be the one the handler returned
+		rt, gt := resp.Type(), got.Type()
+		if resp.Kind() == reflect.Interface && !resp.IsNil() {
+			rt = resp.Elem().Type()
+		}
+		if got.Kind() == reflect.Interface && !got.IsNil() {
+			gt = got.Elem().Type()
+		}
+		if rt != gt {
+			return vk.F("response-variant-changed", "%s: handler returned %s, the client received %s (status %d)", desc(), rt, gt, st.status)
+		}
+		u.Label(className + ":response-variant-delivered")
+		return nil
+	}
+	if ok, where := valgen.Equal(resp, got, valgen.EqOpts{NilEqualsEmpty: true, IgnoreTime: ignoreTime, UnsetMayBecomeSet: ignoreTime}); !ok {
 		cl := "response-silent-change"
 		switch {
 		case strings.Contains(where, ": float ") && !strings.Contains(where, ".Response"):
